@@ -15,9 +15,9 @@ import (
 
 func init() {
 	core.Register(&core.Check{
-		ID:     "C30",
-		Rule:   "cases: for every linked type, PRNG-filled messages m, an independent second message, and near-miss mutants of m (one nested scalar changed, +0/-0 swapped, NaN payload changed, nil/empty bytes swapped, one list element or map entry added/removed, unknown records permuted across and within field numbers); checked: reflexivity, symmetry, transitivity over {m, Clone, decode(encode), dynamicpb transfer}, and agreement of proto.Equal with protoreflect.Value.Equal, with Equal of dynamicpb transfers, with the independent snapshot equality, and with cmp.Equal+protocmp.Transform (no NaN/Any/unknown); distinct = distinct (type, bytes(a), bytes(b)); non-trivial = both populated",
-		Assume: []string{"model/eqsnap.go transcribes the documented Equal semantics", "go-cmp"},
+		ID:      "C30",
+		Rule:    "cases: for every linked type, PRNG-filled messages m, an independent second message, and near-miss mutants of m (one nested scalar changed, +0/-0 swapped, NaN payload changed, nil/empty bytes swapped, one list element or map entry added/removed, unknown records permuted across and within field numbers); checked: reflexivity, symmetry, transitivity over {m, Clone, decode(encode), dynamicpb transfer}, and agreement of proto.Equal with protoreflect.Value.Equal, with Equal of dynamicpb transfers, with the independent snapshot equality, and with cmp.Equal+protocmp.Transform (no NaN/Any/unknown); distinct = distinct (type, bytes(a), bytes(b)); non-trivial = both populated",
+		Assume:  []string{"model/eqsnap.go transcribes the documented Equal semantics", "go-cmp"},
 		Batches: func(tier string) []core.Batch { return stdBatches([]string{"base"}, 16) },
 		Gates: func(tier string) map[string]int64 {
 			return map[string]int64{"pairs": 10000, "extension_set_pairs": 300, "equal_true": 3000, "equal_false": 3000, "mutant:scalar": 300, "mutant:zero-sign": 20, "mutant:nan-payload": 20, "mutant:unknown-across": 100, "mutant:unknown-within": 50, "protocmp_compares": 1000}
